@@ -137,6 +137,16 @@ fn run(op: &str, a: &[String]) -> String {
         let sub = a[0].as_str();
         let field = a[1].as_str();
         let g = groups(&a[2..]);
+        if sub == "then" {
+            // cmp then <field> <sub> <producer> <n> | <n producer groups> | <observer groups, `@` = produced polynomial>:
+            // the observer on the polynomial as the producer left it, against the observer on a freshly built copy
+            // of its stripped coefficient list
+            return match field {
+                "b" => cmp_then::<BFieldElement>(&g),
+                "x" => cmp_then::<XFieldElement>(&g),
+                _ => "BAD-FIELD".into(),
+            };
+        }
         if sub == "clean_divide" {
             return cmp_with(|plain| {
                 let p = |i: usize| if plain { mk_plain::<BFieldElement>(&g[i]) } else { mk::<BFieldElement>(&g[i]) };
@@ -161,7 +171,79 @@ fn run(op: &str, a: &[String]) -> String {
 
 /// operations over one field
 fn one<FF: Elem>(op: &str, g: &[Vec<String>]) -> Option<String> {
+    if op == "then" {
+        // then <field> <producer> <n> <observer> | <n producer groups> | <observer groups, `@` = the produced polynomial>
+        // The producer leaves a polynomial in whatever STATE the library's own operation leaves it (in-place
+        // cancellation, multiplication by zero, shifting zero, ...); the observer is then applied to that very object.
+        let n = g[0][1].parse::<usize>().unwrap();
+        let q = produce::<FF>(&g[0][0], &g[1..1 + n])?;
+        let og: Vec<Vec<String>> = g[1 + n..].to_vec();
+        return one_core::<FF>(&g[0][2], &og, &|i: usize| if og[i].len() == 1 && og[i][0] == "@" { q.clone() } else { mk::<FF>(&og[i]) });
+    }
+    if op == "same" {
+        // same <field> <sub> | <poly> : a by-reference binary operation with THE SAME OBJECT on both sides
+        let q = mk::<FF>(&g[1]);
+        return Some(match g[0][0].as_str() {
+            "multiply" => showp(&q.multiply(&q)),
+            "naive" => showp(&q.naive_multiply(&q)),
+            "fast" => showp(&q.fast_multiply(&q)),
+            "eq" => format!("{} {}", bit(q == q), bit(q == q)),
+            "hash" => format!("{} {}", bit(q == q), bit(h(&q) == h(&q))),
+            "batch" => showp(&Polynomial::batch_multiply(&[q.clone(), q.clone()])),
+            _ => return None,
+        });
+    }
+    if op == "alias" {
+        // alias <field> <sub> <i> <j> | <buffer: storage + values> : the binary operation <sub> on two BORROWED polynomials
+        // that are the prefixes of length i and j of ONE buffer (same start address, different lengths)
+        let (i, j) = (g[0][1].parse::<usize>().unwrap(), g[0][2].parse::<usize>().unwrap());
+        let (_, k) = storage(&g[1][0]);
+        let mut v: Vec<FF> = elems(&g[1][1..]);
+        v.extend(vec![FF::ZERO; k]);
+        let buf: &'static [FF] = Box::leak(v.into_boxed_slice());
+        let og: Vec<Vec<String>> = vec![vec![], vec![]];
+        return one_core::<FF>(&g[0][0], &og, &|idx: usize| {
+            if idx == 0 {
+                Polynomial::new_borrowed(&buf[..i])
+            } else {
+                Polynomial::new_borrowed(&buf[..j])
+            }
+        });
+    }
+    one_core::<FF>(op, g, &|i: usize| mk::<FF>(&g[i]))
+}
+
+/// a polynomial as an operation of the library leaves it
+fn produce<FF: Elem>(prod: &str, g: &[Vec<String>]) -> Option<P<FF>> {
     let p = |i: usize| mk::<FF>(&g[i]);
+    Some(match prod {
+        "aa" => {
+            let mut q = p(0);
+            q += p(1);
+            q
+        }
+        "smm" => {
+            let mut q = p(0);
+            q.scalar_mul_mut(elem::<FF>(&g[1]));
+            q
+        }
+        "shift" => p(1).shift_coefficients(g[0][0].parse::<usize>().unwrap()),
+        "add" => p(0) + p(1),
+        "sub" => p(0) - p(1),
+        "neg" => -p(0),
+        "mul" => p(0) * p(1),
+        "multiply" => p(0).multiply(&p(1)),
+        "smul" => p(0).scalar_mul(elem::<FF>(&g[1])),
+        "scale" => p(0).scale::<FF, FF>(elem::<FF>(&g[1])),
+        "deriv" => p(0).formal_derivative(),
+        "modx" => p(1).mod_x_to_the_n(g[0][0].parse::<usize>().unwrap()),
+        "truncate" => p(1).truncate(g[0][0].parse::<usize>().unwrap()),
+        "new" => p(0),
+        _ => return None,
+    })
+}
+
+fn one_core<FF: Elem>(op: &str, g: &[Vec<String>], p: &dyn Fn(usize) -> P<FF>) -> Option<String> {
     Some(match op {
         // ---- sparse operands of large degree (specification-only in the oracle):
         // sparse <which> | a c1 d1 | b c2 d2 :  (c1 X^a + d1) * (c2 X^b + d2)  by the strategy <which>; the result is printed
@@ -358,8 +440,36 @@ fn cmp_with<T: Fn(bool) -> Option<String>>(f: T) -> String {
     }
 }
 
+fn cmp_then<FF: Elem>(g: &[Vec<String>]) -> String {
+    let n = g[0][2].parse::<usize>().unwrap();
+    let q = match panic::catch_unwind(AssertUnwindSafe(|| produce::<FF>(&g[0][1], &g[1..1 + n]))) {
+        Ok(Some(q)) => q,
+        Ok(None) => return "UNKNOWN-OP".into(),
+        Err(_) => return "PRODUCER-PANIC".into(),
+    };
+    let fresh: P<FF> = Polynomial::new(strip(q.coefficients()).to_vec());
+    let og: Vec<Vec<String>> = g[1 + n..].to_vec();
+    cmp_with(|plain| {
+        let p = |i: usize| {
+            if og[i].len() == 1 && og[i][0] == "@" {
+                if plain {
+                    fresh.clone()
+                } else {
+                    q.clone()
+                }
+            } else {
+                mk_plain::<FF>(&og[i])
+            }
+        };
+        cmp_eval_with::<FF>(&g[0][0], &og, &p)
+    })
+}
+
 fn cmp_eval<FF: Elem>(sub: &str, g: &[Vec<String>], plain: bool) -> Option<String> {
-    let p = |i: usize| if plain { mk_plain::<FF>(&g[i]) } else { mk::<FF>(&g[i]) };
+    cmp_eval_with::<FF>(sub, g, &|i: usize| if plain { mk_plain::<FF>(&g[i]) } else { mk::<FF>(&g[i]) })
+}
+
+fn cmp_eval_with<FF: Elem>(sub: &str, g: &[Vec<String>], p: &dyn Fn(usize) -> P<FF>) -> Option<String> {
     let n = |i: usize| g[i][0].parse::<usize>().unwrap();
     Some(match sub {
         "divide" => {
